@@ -10,7 +10,7 @@ use crate::internal::streamname::{
 };
 use crate::internal::stringpool::{StringPool, StringPoolBuilder};
 use crate::internal::summary::SummaryInfo;
-use crate::internal::table::{Rows, Table};
+use crate::internal::table::{Rows, Table, MAX_NUM_ROWS};
 use crate::internal::value::{Value, ValueRef};
 use cfb;
 use std::borrow::Borrow;
@@ -815,6 +815,13 @@ impl<F: Read + Write + Seek> Package<F> {
                     keys
                 );
             }
+        }
+        if existing_keys.len() + rows.len() > MAX_NUM_ROWS {
+            invalid_input!(
+                "Table {:?} cannot hold more than {} rows",
+                table_name,
+                MAX_NUM_ROWS
+            );
         }
         Ok(())
     }
